@@ -373,6 +373,11 @@ class Walker:
                             self.facts.extend(f(self, call, args, suffix, e[2]) or [])
             elif e[0] == "call":
                 args = C.expr_of(pa, e[2], 0, pos)
+                # the receiver is a tracked sub-slice object whose *contents* an earlier callee havocked: its extent is
+                # still that of the object (E2 logs the object's address with the call), so measure it by the object
+                if args and e[3] and len(e[3]) == 1 and isinstance(e[3][0], str) and e[3][0].startswith("obj:ret:") \
+                        and isinstance(strip(args[0]), str) and strip(args[0]).startswith("top:havoc:"):
+                    args = (C.expr_of(pa, "top:" + e[3][0][4:], 0, pos),) + tuple(args[1:])
                 nm = C.short(e[1])
                 if re.search(r"fmt::|Argument|hint::must_use|Error::new$|::fmt$", e[1]):
                     continue                    # formatting / error construction only carries values computed before
